@@ -817,6 +817,84 @@ def op_dims(case):
     return out
 
 
+def ready_made_hashes(ctx, dims, note, guarded):
+    """file systems whose info() reports ready-made hashes.  For a requested name N the answer must be
+    the reference digest for N of the content (normalised for md5-dos2unix): a field of info() may
+    stand in for reading only when it IS the digest for N.  By design (not judged): for N == "md5"
+    the code trusts an `md5` field as it is; honest fields make that agree with the reference."""
+    from dvc_objects.fs import as_filesystem
+    from dvc_objects.fs.local import LocalFileSystem
+
+    from dvc_data.fs import DataFileSystem
+    from dvc_data.hashfile import hash as H
+    from dvc_data.hashfile.db import HashFileDB
+    from dvc_data.hashfile.hash_info import HashInfo
+    from dvc_data.hashfile.meta import Meta
+    from dvc_data.index import DataIndex, DataIndexEntry, ObjectStorage
+
+    lf = b"line one\nline two\nline three\n"
+    contents = {"lf.txt": lf, "crlf.txt": ref_unix2dos(lf), "blob.bin": b"\x00\x01\x02\r\n\xff\xfe" * 20,
+                "empty": b"", "w512.txt": (b"y" * 510) + b"\r\n", "highbin.bin": b"\x80\x81\r\n" * 40}
+    root = ctx.fresh("readymade")
+    local = LocalFileSystem()
+    odb = HashFileDB(local, os.path.join(root, "odb"))
+    entries = {}
+    for fname, data in contents.items():
+        src = os.path.join(root, fname)
+        with open(src, "wb") as fh:
+            fh.write(data)
+        oid = hashlib.md5(data).hexdigest()  # noqa: S324
+        odb.add(src, local, oid)
+        entries[(fname,)] = DataIndexEntry(key=(fname,), meta=Meta(size=len(data)), hash_info=HashInfo("md5", oid))
+    index = DataIndex(entries)
+    index.storage_map.add_cache(ObjectStorage((), odb))
+    dfs = as_filesystem(DataFileSystem(index))
+
+    class InjectingFS(LocalFileSystem):
+        """local files; info() additionally reports hash-like fields, honest or stale"""
+
+        def __init__(self, stale=False):
+            super().__init__()
+            self.stale = stale
+
+        def info(self, path, **kw):
+            i = dict(super().info(path, **kw))
+            if i.get("type") == "file":
+                with open(path, "rb") as fh:
+                    data = fh.read()
+                i["md5"] = "0" * 32 if self.stale else hashlib.md5(data).hexdigest()  # noqa: S324
+                i["sha256"] = "1" * 64 if self.stale else hashlib.sha256(data).hexdigest()
+                i["etag"] = "2" * 32
+                i["checksum"] = "3" * 32
+            return i
+
+    def want_for(alg, data):
+        return legacy_expected(data) if alg == D2U else ref_digest(alg, data)
+
+    def ask(fs, path, alg):
+        def go():
+            meta, hi = H.hash_file(path, fs, alg)
+            return (hi.name, hi.value)
+        return guarded(go)
+
+    for fname, data in contents.items():
+        for alg in ALGS:
+            want = (alg, want_for(alg, data))
+            case = {"kind": "entry", "name": alg, "content": fname}
+            note("fs:info-carries-md5(DataFileSystem over an index)", {**case, "entry": "hash_file@DataFileSystem"},
+                 ask(dfs, "/" + fname, alg), want, "hash_file through a DataFileSystem whose info() reports md5")
+            p = os.path.join(root, fname)
+            note("fs:info-injects(md5,sha256,etag,checksum)", {**case, "entry": "hash_file@info-with-hash-fields"},
+                 ask(InjectingFS(), p, alg), want, "hash_file on a filesystem whose info() carries honest hash fields")
+            if alg == "md5":
+                ctx.count("by-design:md5-field-of-info-trusted-for-name-md5")
+                continue
+            note("fs:info-md5-field-stale", {**case, "entry": "hash_file@info-with-stale-hash-fields"},
+                 ask(InjectingFS(stale=True), p, alg), want,
+                 "hash_file on a filesystem whose info() carries md5/sha256 fields that are not the digest asked for")
+    impl.rm_rf(root)
+
+
 def run_entrypoints(ctx, dims):
     """the remaining entry points and their flags, oracle only (digest against hashlib / blake3 over the
     whole content): get_hasher for every pool name; file_md5 with / without callback and size; hash_file
@@ -927,6 +1005,7 @@ def run_entrypoints(ctx, dims):
                  guarded(lambda: H.hash_file(mpath, mem, alg)[1].value), want, "hash_file on a memory filesystem")
             note("fs:non-local(memory)", {"kind": "entry", "entry": "file_md5@memfs", "name": alg, "content": cname},
                  guarded(lambda: H.file_md5(mpath, mem, name=alg)), want, "file_md5 on a memory filesystem")
+    ready_made_hashes(ctx, dims, note, guarded)
     impl.rm_rf(root)
 
 
